@@ -185,6 +185,39 @@ async def sk_pop3_quit_after_imap_expunge(hp, w, rnd, ctx):
     await w.observe()
 
 
+async def sk_inbox_named_by_other_spellings(hp, w, rnd, ctx):
+    """DELETE (and RENAME on to) INBOX written in spellings that the server's
+    own name normalisation turns into INBOX: refused, and no message of INBOX
+    or of the source mailbox goes anywhere."""
+    a, b2 = w.session(), w.session()
+    await w.op_create(a, "work")
+    for i in range(4):
+        await w.op_append(a, "INBOX", flags=rnd.choice([None, ["\\Seen"], ["\\Deleted"]]))
+    for i in range(2):
+        await w.op_append(a, "work")
+    await w.op_select(b2, "INBOX")
+    await w.observe()
+    for sp in ["INBOX/", "/INBOX", "./Inbox", '"INBOX/"', "x/../INBOX", "/inbox/", "InBoX//"]:
+        for text in (f"DELETE {sp}", f"RENAME work {sp}"):
+            r = await w._cmd(a, text)
+            w.stats["inbox_spelling_cmds"] += 1
+            if r.ok:
+                w.viol(["C05", "C17"], "inbox-removed-or-replaced-through-another-spelling", f"{text} -> {r.brief()}")
+                return
+            await w.rig.settle()
+            if a.s.writer.closed:
+                a = w.session()
+        if b2.s.writer.closed:
+            b2 = w.session()
+            await w.op_select(b2, "INBOX")
+        else:
+            await w.op_noop(b2)
+        await w.observe()
+    await w.op_select(a, "INBOX")
+    await w.op_expunge(a)
+    await w.observe()
+
+
 async def sk_expunge_after_a_pack(hp, w, rnd, ctx):
     """A lower block of messages is expunged so that the folder qualifies for
     packing (threshold lowered for this script); single messages further up are
@@ -222,9 +255,9 @@ async def sk_expunge_after_a_pack(hp, w, rnd, ctx):
 
 class C05(HistProp):
     prop = PROP
-    pack_limits = [100, 100, 100, 100, 6, 100, 100, 4]
+    pack_limits = [100, 100, 100, 100, 6, 100, 100, 4, 100]
     names = ["INBOX", "other"]
-    skeletons = [sk_uid_expunge_sparse, sk_examine_session, sk_copy_same_mailbox_and_missing, sk_placeholder_destination, sk_move_naming_nothing, sk_rename_inbox_then_arrivals, sk_pop3_quit_after_imap_expunge, sk_expunge_after_a_pack]
+    skeletons = [sk_uid_expunge_sparse, sk_examine_session, sk_copy_same_mailbox_and_missing, sk_placeholder_destination, sk_move_naming_nothing, sk_rename_inbox_then_arrivals, sk_pop3_quit_after_imap_expunge, sk_expunge_after_a_pack, sk_inbox_named_by_other_spellings]
     weights = {"append": 9, "store_del": 10, "store": 4, "uid_store": 3, "expunge": 8, "uid_expunge": 7, "copy": 7, "uid_copy": 5, "move": 6, "uid_move": 4,
                "close": 4, "examine": 4, "fetch_body": 3, "deliver": 2, "noop": 4, "idle": 1, "advance": 2}
     opts = {"examine_prob": 0.3}
